@@ -84,7 +84,7 @@ func viewString(u Utreexo, spec *specForest) string {
 // byte counts == bytes consumed/produced; SerializeSize == bytes produced.
 func TestRAC_C13(t *testing.T) {
 	res := newRacResult("C13")
-	cfgs := []mapCfg{{true, 63}, {true, 0}, {false, 63}, {false, 3}}
+	cfgs := []mapCfg{{Full: true, TotalRows: 63}, {Full: true, TotalRows: 0}, {Full: false, TotalRows: 63}, {Full: false, TotalRows: 3}}
 	maxLeaves, maxBlocks := 5, 3
 	if res.thorough() {
 		maxLeaves, maxBlocks = 6, 3
